@@ -339,7 +339,8 @@ def build_item(it, mode) -> Item:
     if k == "db":
         lead, trail = it[1] & 255, it[2] & 255
         data = bytes([lead, trail])
-        if mode == "wide" and lead >= 0x81 and trail >= 0xA1:
+        if mode == "wide" and 0x81 <= lead <= 0xFE and (0x40 <= trail <= 0x7E or 0x80 <= trail <= 0xFE):
+            # EUC (trail >= 0xA1) and Big5 / GBK / UHC (trail 0x40-0x7E, 0x80-0xFE) double-byte characters
             return Item("db", data, True, [("eq", chr(lead) + chr(trail))], True)
         if mode == "narrow":
             return build_item(["raw", data.decode("latin-1")], mode)
@@ -372,7 +373,7 @@ def build_item(it, mode) -> Item:
 
 
 def build_stream(case):
-    mode = {"utf-8": "utf8", "euc-jp": "wide", "iso8859-1": "narrow"}[case["enc"]]
+    mode = {"utf-8": "utf8", "euc-jp": "wide", "gbk": "wide", "big5": "wide", "uhc": "wide", "iso8859-1": "narrow"}[case["enc"]]
     items = [build_item(it, mode) for it in case["items"]]
     return mode, items, b"".join(i.data for i in items)
 
@@ -754,6 +755,23 @@ def x10_cases():
             yield {"enc": enc, "items": [["x10", v, 255 - v, (v * 7) & 255], ["raw", "z"]], "frags": frags}
 
 
+def dbcs_cases():
+    """every two-byte character that Python's own codec (independent of urwid and of this harness) decodes
+    to one character, for the double-byte codecs urwid's wide mode stands for; whole, split between the two
+    bytes, and embedded between printable bytes"""
+    for enc in ("gbk", "big5", "uhc", "euc-jp"):
+        for lead in range(0x81, 0xFF):
+            for trail in range(0x40, 0xFF):
+                try:
+                    if len(bytes([lead, trail]).decode(enc)) != 1:
+                        continue
+                except UnicodeDecodeError:
+                    continue
+                yield {"enc": enc, "items": [["db", lead, trail]], "frags": [[[1, 0]]]}
+                if trail < 0x80 or (lead + trail) % 16 == 0:
+                    yield {"enc": enc, "items": [["raw", "x"], ["db", lead, trail], ["raw", "y"]], "frags": [[[2, 0]]]}
+
+
 def mouse_sgr_cases():
     for b in range(128):
         for final in "Mm":
@@ -868,6 +886,7 @@ def shard(ctx):
         ("independently written xterm forms (CSI 1;m X, CSI n;m ~, SS3 X, SS3 m X; m 2..8) x 3 encodings x every single cut", xterm_cases()),
         ("X10 mouse: every value of each of the three bytes x every single cut", x10_cases()),
         ("SGR mouse: every button code 0..127 x M/m", mouse_sgr_cases()),
+        ("every two-byte character of gbk / big5 / uhc / euc-jp (by Python's codecs): whole and split", dbcs_cases()),
     ]
     for name, cases in sweeps:
         if ctx.failure is None:
